@@ -376,6 +376,27 @@ Section Exec.
         (o :: os, s'')
     end.
 
+  (** a request for several elements of one series (slice / list index): the elements selected by
+      numpy indexing are evaluated one after the other in row-major order of their indices, each value
+      being copied into the result as soon as it is evaluated (a later deletion of the cache entry does
+      not matter); the first exception aborts the request *)
+  Fixpoint run_multi (fuel : nat) (s : st) (tb : tbl) (name : string) (ixs : list index)
+    : res (list (sval V)) * st :=
+    match ixs with
+    | [] => (Ok [], s)
+    | ix :: r =>
+        match run fuel s (tb, name, ix) with
+        | (Ok v, s1) =>
+            match run_multi fuel s1 tb name r with
+            | (Ok vs, s2) => (Ok (v :: vs), s2)
+            | (Raise e, s2) => (Raise e, s2)
+            | (OutOfFuel, s2) => (OutOfFuel, s2)
+            end
+        | (Raise e, s1) => (Raise e, s1)
+        | (OutOfFuel, s1) => (OutOfFuel, s1)
+        end
+    end.
+
   (* ---------------------------------------------------------------- initial state *)
 
   Definition zero_order : list nat := repeat 0 (xw_np W).
